@@ -73,6 +73,7 @@ type SvcPatch struct {
 	Type    *string `json:"type,omitempty"`
 	Primary *bool   `json:"primary,omitempty"`
 	Hidden  *bool   `json:"hidden,omitempty"`
+	Linked  *[]int  `json:"linked,omitempty"` // replaces the list of linked services (indices into the accessory's services)
 	Drop    bool    `json:"drop,omitempty"`
 }
 
@@ -289,6 +290,14 @@ func buildAcc(s AccSpec) *accessory.Accessory {
 		}
 		if p.Hidden != nil {
 			sv.Hidden = *p.Hidden
+		}
+		if p.Linked != nil {
+			sv.Linked = []*service.Service{}
+			for _, l := range *p.Linked {
+				if l >= 0 && l < len(a.Services) && a.Services[l] != sv {
+					sv.AddLinkedService(a.Services[l])
+				}
+			}
 		}
 		if p.Drop {
 			dropSvc[sv] = true
@@ -687,7 +696,7 @@ type mutation struct {
 }
 
 var structuralKinds = []string{"acc-added", "acc-removed", "svc-added", "svc-removed", "char-added", "char-removed", "perm-added", "perm-removed",
-	"bound-changed", "type-changed", "acc-swapped", "acc-id-changed", "meta-changed", "kind-changed"}
+	"bound-changed", "type-changed", "acc-swapped", "acc-id-changed", "meta-changed", "kind-changed", "svc-links-changed"}
 var valueKinds = []string{"value-changed", "name-changed", "info-changed", "value-presence", "category-changed", "temp-param-changed"}
 
 func hasPerm(ps []string, p string) bool {
@@ -970,6 +979,51 @@ func mutate(r *Recipe, kind string, rnd *rand.Rand) (m mutation, ok bool) {
 			m.Detail = fmt.Sprintf("service hidden %v -> %v", cur, !cur)
 		}
 		m.Detail = fmt.Sprintf("accessory %d service %d characteristic %d (type %s): ", c.acc, c.svc, c.char, c.c.Type) + m.Detail
+		return m, true
+	case "svc-links-changed":
+		// only the primary flag or the list of linked services of one service changes: same accessories, services,
+		// characteristics and metadata
+		m.Structural = true
+		ai := pickAcc()
+		for _, p := range r.Accs[ai].SvcPatches {
+			if p.Drop {
+				return m, false // service indices of the patches refer to the accessory before drops
+			}
+		}
+		a := construct(r.Accs[ai])
+		if len(a.Services) < 2 {
+			return m, false
+		}
+		si := rnd.Intn(len(a.Services))
+		sv := a.Services[si]
+		spt := r.svcPatchFor(ai, si)
+		if rnd.Intn(3) == 0 {
+			spt.Primary = bp(!sv.Primary)
+			m.Detail = fmt.Sprintf("accessory %d service %d: primary %v -> %v", ai, si, sv.Primary, !sv.Primary)
+			return m, true
+		}
+		var cur []int
+		for _, l := range sv.Linked {
+			for k, o := range a.Services {
+				if o == l {
+					cur = append(cur, k)
+				}
+			}
+		}
+		var next []int
+		if len(cur) > 0 && rnd.Intn(2) == 0 {
+			next = append(next, cur[1:]...) // one link removed
+		} else {
+			other := (si + 1 + rnd.Intn(len(a.Services)-1)) % len(a.Services)
+			for _, c := range cur {
+				if c == other {
+					return m, false
+				}
+			}
+			next = append(append(next, cur...), other) // one link added
+		}
+		spt.Linked = &next
+		m.Detail = fmt.Sprintf("accessory %d service %d: linked services %v -> %v", ai, si, cur, next)
 		return m, true
 	case "kind-changed":
 		m.Structural = true
